@@ -106,6 +106,10 @@ ODD = [
     "l := []\nl = [l]", "xs := []\nxs -> push2(xs)", "l2 := []\nl2 = [l2]\nz2 :: l2 + 1", "t3 := (1, 2)\nt3 = (t3, 1)", "l4 := []\nl4 = [l4]\npr(l4 == 1)", "g5 := fn x do end\ng5 = fn x do g5(g5) end\nz5 :: g5 + 1", "s := s", "s := fn -> int do ret s() end", "loop do end", "k :: ()", "k :: (,)", "t :: (1,)\npr(t[0])",
     "ff :: fn do end\nff = ff", "q :: if 1 < 2 do end", "case En.X 1 do\n    else end\nend", "w :: [[]]", "z :: -vd()", "u := vd\nu()()", "b := A { a: A { a: 1 } }",
     "selfplus :: fn x do\n    x == (x, 1)\n    y :: x + x\nend", "selfless :: fn x do\n    x == (x, 1)\n    y :: x < x\nend", "selfneg :: fn x do\n    x == (x, 1)\n    y :: -x\nend", "selfdiv :: fn x do\n    x == (x, 1)\n    y :: x / 2\nend",
+    # integer and float literals at the edges of their ranges in every arithmetic position (anything the compiler computes itself must not overflow)
+    "n1 :: 9223372036854775807 + 1\npr(n1)", "n2 :: -(-9223372036854775807 - 1)\npr(n2)", "n3 :: 1000000000 * 60 * 60 * 24 * 365 * 300\npr(n3)", "n4 :: 9223372036854775807 * 2\npr(n4)",
+    "n5 :: -9223372036854775807 - 2\npr(n5)", "n6 :: 4611686018427387904 + 4611686018427387904\npr(n6)", "n7 :: 3037000500 * 3037000500\npr(n7)", "n8 :: 0 - 9223372036854775807 - 9223372036854775807\npr(n8)",
+    "n9 :: (9223372036854775807, 1) + (1, 9223372036854775807)\npr(n9)", "f1 :: 1.0 / 0.0\npr(f1)", "i1 :: 1 / 0\npr(i1)", "c1 :: 9223372036854775807 < 9223372036854775807 + 1\npr(c1)",
     "m := 1\nm.x = 2", "n := (1, 2)\nn[0] = 3", "o := En.X\npr(o)", "r :: fn -> do end", "e :: [fn do end, fn -> int do ret 1 end]",
 ]
 ODD_TEXT = ODD_HEAD + "push2 :: fn l, x do end\nstart :: fn do\n    __alt1(%s)\n    pr(1)\nend\n" % ", ".join("fn do\n%s\nend" % ("\n    " + "\n    ".join(s.split("\n"))) for s in ODD)
